@@ -110,10 +110,11 @@ def gen_cases(rng, tier):
             for fmt in bf:
                 items.append(build(dict(kind="B", fmt=fmt, N=N, data=[sample_value(r, fmt) for _ in range(L)])))
     # a few long slices (lengths well beyond 3N+1) per tier
-    for j in range(40 if tier == "quick" else 600):
+    for j in range(24 if tier == "quick" else 240):
         r = rng.fork(f"long{j}")
         N = r.range(1, 32)
-        L = r.choice([N * r.range(4, 40), N * r.range(4, 40) + r.range(1, max(1, N - 1)), r.range(100, 1500)])
+        top = 12 if tier == "quick" else 24
+        L = r.choice([N * r.range(4, top), N * r.range(4, top) + r.range(1, max(1, N - 1)), r.range(100, 400 if tier == "quick" else 800)])
         fmt = r.below(5)
         if r.chance(1, 2):
             items.append(view_case(r, fmt, N, L))
@@ -198,6 +199,42 @@ def shrink(it, fails):
     return cur
 
 
+def correspond(binpath, items, tag):
+    """F.correspond with two differences that only concern resources: the cases are dealt to the coqc
+    shards in a strided order (so that the few long slices do not end up in one multi-megabyte file) and
+    in smaller files; a shard whose coqc process died (out of memory on a loaded machine) is retried once
+    in small pieces.  Verdicts are per case and identical to F.correspond's."""
+    rc, outl, err = F.run_bin_parallel(binpath, [it["line"] for it in items])
+    if rc != 0 or len(outl) != len(items):
+        return outl, [], [("harness", f"rc={rc} lines={len(outl)}/{len(items)} stderr={err[-1500:]}")]
+    terms = []
+    for it, o in zip(items, outl):
+        try:
+            terms.append(f"({it['coq']}, {F.zlistlist(F.norm_obs_line(o))})")
+        except ValueError:
+            return outl, [], [("harness", f"unparsable observation line {o[:200]!r} for {it['line'][:200]!r}")]
+    n = len(terms)
+    S = 97
+    order = [i for r in range(S) for i in range(r, n, S)]
+    per_file = 120
+    bad_p, errs = F.coq_check_cases(tag, HEADER, CHECK, [terms[i] for i in order], per_file=per_file)
+    bad = [order[k] for k in bad_p]
+    nfiles = max(1, min(max(F.NCPU, (n + per_file - 1) // per_file), n))
+    step = (n + nfiles - 1) // nfiles if n else 1
+    errors = []
+    for name, msg in errs:
+        try:
+            k0 = int(name.split("_")[1])
+        except (IndexError, ValueError):
+            errors.append((name, msg))
+            continue
+        part = order[k0:k0 + step]
+        b2, e2 = F.coq_check_cases(tag + "_retry", HEADER, CHECK, [terms[i] for i in part], shards=1, per_file=20)
+        bad += [part[k] for k in b2]
+        errors += [(name + "/" + nm, m) for nm, m in e2]
+    return outl, sorted(bad), errors
+
+
 def main(rep, tier, seed):
     rng = F.Rng(seed)
     info = F.standard_proof_phase(rep, PROP)
@@ -205,7 +242,7 @@ def main(rep, tier, seed):
     if not ok:
         rep.violation("harness_build", {"kind": "harness does not build against /repo", "log": blog[-4000:]}, no_input=True)
         return finish(rep, info, 0, 0, {}, [])
-    fb_n, fb_bad, fb_err = floatbase.run(rng.fork("floatbase"), 600 if tier == "quick" else 3000)
+    fb_n, fb_bad, fb_err = floatbase.run(rng.fork("floatbase"), 300 if tier == "quick" else 3000)
     for name, msg in fb_err:
         rep.violation("floatbase_error", {"kind": "float base could not be validated", "where": name, "log": msg}, no_input=True)
     if fb_bad:
@@ -214,7 +251,7 @@ def main(rep, tier, seed):
     corpus = load_corpus()
     items, n_grid = gen_cases(rng, tier)
     items = corpus + items
-    outl, bad, errors = F.correspond(binpath, items, HEADER, CHECK, "c10")
+    outl, bad, errors = correspond(binpath, items, "c10")
     for name, msg in errors:
         rep.violation("correspondence_error_" + name.replace("/", "_"),
                       {"kind": "correspondence could not be evaluated", "where": name, "log": msg}, no_input=True)
